@@ -29,6 +29,9 @@ type expiry struct {
 	expiryConfig
 	timerLock sync.Mutex
 	timer     *time.Timer
+	// total is the session expiry interval the timer has been started with (expireIn is consumed
+	// by start and by the callback)
+	total *uint32
 }
 
 func newExpiry(c expiryConfig) *expiry {
@@ -45,6 +48,11 @@ func (s *expiry) start() {
 		timerPeriod = s.willIn
 	} else {
 		s.will = nil
+	}
+
+	if s.expireIn != nil && s.total == nil {
+		total := *s.expireIn
+		s.total = &total
 	}
 
 	if s.expireIn != nil {
@@ -87,7 +95,10 @@ func (s *expiry) persistedState() *vlpersistence.SessionDelays {
 		exp.Will, _ = mqttp.Encode(s.will)
 	}
 
-	if s.expireIn != nil {
+	if s.total != nil {
+		// the whole interval counted from Since, not what is left of expireIn after start
+		exp.ExpireIn = strconv.Itoa(int(*s.total))
+	} else if s.expireIn != nil {
 		exp.ExpireIn = strconv.Itoa(int(*s.expireIn))
 	}
 
